@@ -1,8 +1,9 @@
 (** C02 property theorems (partial by nature: the C stack use of CPython per Python frame is not modelled; the
-    frame depth is a ghost quantity of the model, tied to the code by measuring real frame depths). *)
+    frame depth is a ghost quantity of the models, tied to the code by measuring real frame depths).
+    Part 1: Deferred chains (kernel).  Part 2: the inlineCallbacks / coroutine driver (C02.InlineModel). *)
 From Coq Require Import List Arith ZArith Bool.
 From TwLib Require Import DeferredK DeferredKFacts.
-From C02 Require Import Model Proofs.
+From C02 Require Import Model Proofs Chains InlineModel InlineProofs.
 Import ListNotations.
 
 (** for EVERY heap, chain stack and fuel — so for chains of every length and shape, fired in any order, with
@@ -24,20 +25,63 @@ Theorem continuation_costs_no_frame : forall h cur rest D c more,
 Proof. exact continue_costs_no_frame. Qed.
 Print Assumptions continuation_costs_no_frame.
 
-(** FULL statement wanted: for every n and both outcomes, the three chain families complete with the innermost
-    result on Deferred 0 (forall n, chain_done fail (chain_* fail n) = true).  Proved here only for n <= 40 by
-    computation (the depth bound above is for all n). *)
-Theorem chains_complete_partial :
-  family_ok chain_outer = true /\ family_ok chain_inner = true /\ family_ok chain_prefired = true.
-Proof. exact families_complete_bounded. Qed.
-Print Assumptions chains_complete_partial.
+(** for EVERY length n and both outcomes, each of the three chain families (outer fired first, inner fired first,
+    innermost pre-fired) ends with the innermost result on Deferred 0, every other Deferred fired, unpaused, without
+    callbacks and holding None (induction over n on function-shaped heaps, C02.Chains) *)
+Theorem chains_complete : forall n fail,
+  chain_done fail (chain_outer fail n) = true
+  /\ chain_done fail (chain_inner fail n) = true
+  /\ chain_done fail (chain_prefired fail n) = true.
+Proof. exact chains_complete_all. Qed.
+Print Assumptions chains_complete.
 
-(** what the explicit list buys (n = 1..30, by computation): firing the innermost Deferred of an outer-first
-    chain of length n makes the list n+1 long and would nest the recursive interpreter n deep, at loop depth <= 1 *)
-Theorem stack_grows_frames_do_not_partial :
-  forallb (fun n => Nat.eqb (iter_stack true (measure (before_last n) [n]) (before_last n) [n]) (S n)
-                    && Nat.leb (loop_depth true (before_last n) n) 1
-                    && match srun (4 * n + 8) (before_last n) n 0 with Some (_, m) => Nat.eqb m n | None => false end)
-          (seq 1 30) = true.
-Proof. exact stack_grows_frames_do_not. Qed.
-Print Assumptions stack_grows_frames_do_not_partial.
+(** what the explicit list buys, for EVERY n: when the innermost Deferred of an outer-first chain of length n fires,
+    the chain list grows to n+1 entries and the recursive interpreter (C01's Spec, executable form) nests n deep,
+    while the loop holds at most one frame above its own *)
+Theorem stack_grows_frames_do_not : forall n,
+  iter_stack true (measure (before_last n) [n]) (before_last n) [n] = S n
+  /\ loop_depth true (before_last n) n <= 1
+  /\ exists h', srun (4 * n + 8) (before_last n) n 0 = Some (h', n).
+Proof. exact stack_grows_frames_do_not_all. Qed.
+Print Assumptions stack_grows_frames_do_not.
+
+(** ---- Part 2: inlineCallbacks / coroutines ---- *)
+
+(** one _inlineCallbacks invocation whose frame is at depth d never goes deeper than d + 4, whatever the kernel
+    state, however many Deferreds the generator / coroutine still awaits and whether they have fired or not *)
+Theorem inline_invocation_depth_bounded : forall sty rest s depth, snd (drive sty s rest depth) <= depth + 4.
+Proof. exact drive_depth_le. Qed.
+Print Assumptions inline_invocation_depth_bounded.
+
+(** every inline program (any number of awaits, pre-fired or not, with results or failures; any sequence of
+    environment operations: recorder, firings in any order, repeated firings): the start and every operation stay
+    within frame depth 9 = callback -> _startRunCallbacks -> _runCallbacks -> gotResult -> _inlineCallbacks (5) + 4 *)
+Theorem inline_depth_bounded : forall p, Forall (fun d => d <= 9) (snd (irun_program p)).
+Proof. exact inline_program_depth_le. Qed.
+Print Assumptions inline_depth_bounded.
+
+(** exact, for EVERY n, from the start: n already-fired awaits are consumed by the first invocation, the result
+    Deferred fires with n, and the deepest frame is start + 3 (6 for a generator, 7 for a coroutine) *)
+Theorem inline_prefired_from_start : forall sty n,
+  let r := irun_program (sty, ones n, []) in
+  snd r = [start_depth sty + 3]
+  /\ exists D', get (heap_of (ks (fst r))) n = Some D' /\ called D' = true /\ res D' = Some (VInt (Z.of_nat n)).
+Proof. exact prefired_from_start. Qed.
+Print Assumptions inline_prefired_from_start.
+
+(** exact, for EVERY n, after a first real suspension (unfired first await, recorder added, first Deferred fired):
+    the re-entered invocation consumes the n already-fired awaits at constant depth: frame depths [start+1; 1; 9],
+    result n + 1 *)
+Theorem inline_prefired_after_suspension : forall sty n,
+  let r := irun_program (sty, None :: ones n, [IRec; IFire 0 1]) in
+  snd r = [start_depth sty + 1; 1; 9]
+  /\ exists D', get (heap_of (ks (fst r))) (S n) = Some D' /\ called D' = true
+                /\ res D' = Some (VInt (1 + Z.of_nat n)).
+Proof. exact prefired_after_suspension. Qed.
+Print Assumptions inline_prefired_after_suspension.
+
+(** the same n awaits driven WITHOUT the waiting list (gotResult re-entering _inlineCallbacks): 4 frames per await *)
+Theorem inline_without_waiting_list_depth_grows : forall n,
+  snd (drive_naive (iinit (ones n)) (seq 0 n) 3) = 3 + 4 * n + 3.
+Proof. exact naive_inline_depth_grows. Qed.
+Print Assumptions inline_without_waiting_list_depth_grows.
